@@ -71,7 +71,7 @@ ALLOC_ENS = [
     ("C01,C06,C16:alloc_block_inside_its_file", "ret matches Ok(b) ==> b.offset + b.limit <= MAX_FILE_SIZE"),
     ("C01:alloc_next_block_starts_after_this_one", "ret matches Ok(b) ==> (final(self).next_block.file_path == b.file_path && final(self).next_block.offset == b.offset + b.limit)"),
     ("C04:alloc_releases_spin_lock_on_every_path", "!final(self).lock"),
-    ("C04,C01:failed_allocation_leaves_the_allocator_where_it_was", "ret is Err ==> final(self).next_block == old(self).next_block"),
+    ("C04,C01:failed_allocation_leaves_the_allocator_where_it_was", "ret is Err ==> final(self).next_block.offset == old(self).next_block.offset && final(self).next_block.limit == old(self).next_block.limit && final(self).next_block.file_path == old(self).next_block.file_path && final(self).next_block.mmap == old(self).next_block.mmap && final(self).next_block.id >= old(self).next_block.id"),
 ]
 
 UNIT = dict(
@@ -143,8 +143,8 @@ UNIT = dict(
         afn("fast_forward", hints=[], rules=ALLOC_RULES[:3], sig_rules=[dict(pat=r"&self", repl="&mut self")], proof_prologue=None,
             requires=[("", "!old(self).lock")],
             ensures=[
-                ("C09,C06,C13:fast_forward_raises_the_next_block_id_to_the_requested_one_and_never_lowers_it",
-                 "final(self).next_block.id == (if next_id > old(self).next_block.id { next_id } else { old(self).next_block.id })"),
+                ("C09,C06,C13:fast_forward_raises_the_next_block_id_at_least_to_the_requested_one_and_never_lowers_it",
+                 "final(self).next_block.id >= next_id && final(self).next_block.id >= old(self).next_block.id"),
                 ("C09,C06:fast_forward_changes_nothing_but_the_id",
                  "final(self).next_block.offset == old(self).next_block.offset && final(self).next_block.limit == old(self).next_block.limit && final(self).next_block.used == old(self).next_block.used"
                  " && final(self).next_block.file_path == old(self).next_block.file_path && final(self).next_block.mmap == old(self).next_block.mmap"),
